@@ -282,6 +282,7 @@ def run(ck):
     ck.source_tie("strings")
     ck.source_tie("json")
     ck.source_tie("codeccmds")
+    ck.source_tie("mapload")
     ck.hygiene()
     ck.ocaml_build()
     ck.harness_build(["c17"])
